@@ -1,6 +1,7 @@
 (* C10 driver: (case ID (ITEM...) QUERY) -> "ID RESULT"
    ITEM  = (P when src n d tgt) | (C xprim xaux pprim paux an ad ac total cn cd cc virt)
          | (I xprim xaux pprim paux xn xd xc yn yd yc)      dates are days, - when not written
+         | (D c)                                a default commodity directive
          | (L src tgt D)                       a lookup made while the journal is read
    QUERY = (bal TGT D (NAME (n d c lot)...)...)        TGT = hex symbol, or - for -V
          | (balmemo TGT D (NAME (n d c lot)...)...)    through the memoising lookup
@@ -20,6 +21,7 @@ let item_of = function
     Some (JItem (ICost (dates_of xp xa pp pa, q_of an ad, c_of ac, batom tot, q_of cn cd, c_of cc, batom virt)))
   | L [A "I"; xp; xa; pp; pa; xn; xd; xc; yn; yd; yc] ->
     Some (JItem (IImplied (dates_of xp xa pp pa, q_of xn xd, c_of xc, q_of yn yd, c_of yc)))
+  | L [A "D"; c] -> Some (JItem (IDefault (c_of c)))
   | L [A "L"; s; t; d] -> Some (JLook (c_of s, c_of t, zatom d))
   | _ -> failwith "item"
 
@@ -53,6 +55,7 @@ let handle line =
                                       (tgt_of t) (zatom d) with
                               | PErr -> "E"
                               | PVal q -> show_q q)
+                ^ "~" ^ show_bal (percent_den (plain js) (List.map holding_of ps) (tgt_of t) (zatom d))
               | _ -> failwith "pct row") rows)
         | L (A "balmemo" :: t :: d :: accts) ->
           String.concat " / " (List.map (function
